@@ -15,7 +15,7 @@ BOUNDS = {
              'subbuild, nested in a build_file}; histories B.M.B; new (content id, mtime) of the changed file are '
              'unconstrained integers (all four changed/unchanged combinations are regions of one query); one function reading / '
              'declaring the same input twice through any two of read_binary(METADATA|HASH), read_text, declare_read(HASH|METADATA); '
-             'plus, for input read and '
+             'plus a pure permission change (chmod, three modes) of the input / the output: never a re-execution; plus, for input read and '
              'output integrity under HASH, the chunked content model: the library\'s read(n) loop receives pieces, file sizes from '
              '{n-1, n, n+1, 2n, 2n+1} (n = the chunk size the code itself asks for), a content differs from every other one in '
              'exactly one byte at a symbolic offset POS(c) in [0, SZ(c)), a digest of a prefix of k bytes is a function of '
@@ -36,6 +36,8 @@ MODES = ['METADATA', 'HASH']
 def families(tier):
     fams = [{'name': 'input', 'params': {'builds': 2}}, {'name': 'integrity', 'params': {'builds': 2}},
             {'name': 'readback', 'params': {'builds': 2}}, {'name': 'readback', 'params': {'builds': 2, 'tamper': True}},
+            # a pure permission change (chmod) of an input / of an output checked for tampering
+            {'name': 'input', 'params': {'builds': 2, 'chmod': True}}, {'name': 'integrity', 'params': {'builds': 2, 'chmod': True}},
             # chunked content model: the library's read(n) loop sees pieces, digests of prefixes are distinguished
             # one function declares the same file twice, under two comparison modes / through two spellings of the read API
             {'name': 'twice', 'params': {'builds': 2}},
@@ -126,7 +128,10 @@ def harness(eng, fam, P):
         eng.check('C13.first-build-ok', impl[0] == 'ok', (fam,), info={'impl': repr(impl[1])[:200]})
         for i in range(P['builds'] - 1):
             old = _meta(w, watch)
-            if fam == 'readback' and not P.get('tamper'):
+            if P.get('chmod'):
+                # only the permission bits of the watched file change (size, mtime_ns and content stay): no mode may react
+                w.ext_chmod(watch, [0o600, 0o755, 0o444][eng.choose('perm', 3)])
+            elif fam == 'readback' and not P.get('tamper'):
                 p = w.p('in/x')
                 w.ext_write(p, eng.fresh_int('xcid'), fresh_mtime(eng, w, p))
             else:
